@@ -4,5 +4,10 @@ CHECKS = {
         "note": "trusted: vmon/oracles/elements.py (textbook definitions), numpy; body constants read as data; tle/mean_circular treated as undefined for hyperbolas",
         "technique": "reference-model monitor + invariant hooks on Form._x_to_y edges",
     },
+    "C03": {
+        "text": "Every day of the IERS tables is read through Date(...).eop and compared with an independent column parser; for generated instants (uniform 1973-2017, biased to UTC midnights, leap windows excluded) all 36 ordered scale pairs are converted by the real code and the offset, same-instant and round-trip clauses checked against the tables under real, zero and constant EOP; arithmetic laws, ordering/equality/hash consistency across labels, DateRange length/iteration/membership against an integer-microsecond model for both step signs, and the missing-data policies are observed. Held-on-observed over ~5e4 (quick) / ~5e5 (thorough) cases; two open known findings are reported as KNOWN-FINDING.",
+        "note": "trusted: vmon/oracles/timescales.py (IERS readme columns, fixed offsets, Almanac TDB-TT), python datetime microsecond arithmetic; leap seconds excluded by 2-minute windows as the quantifier says",
+        "technique": "reference-model monitor (own IERS table parser, integer-microsecond range model) over generated instants",
+    },
 }
 NOT_APPLICABLE = {}
